@@ -14,7 +14,6 @@ NOT_APPLICABLE = {
     'C15': 'oracle is execution in a Lua VM; flow narrowing is whole-analysis',
     'C17': 'render -> parse -> infer round trip over strings and the type system',
     'C18': 'generic instantiation is a whole-pipeline property',
-    'C29': 'interleavings of reload with notifications: schedules, not function contracts',
     'C30': 'debounce timers and cancellation across tasks: schedules, not function contracts',
     'C34': 'conversion is url::Url + percent_encoding: dependency code',
     'C37': '8.8 kLoC of byte-offset markup parsing over rowan tokens; only the final sort_by_key is in reach, which is the std contract',
